@@ -176,7 +176,7 @@ namespace hs
         auto& heap  = SimHeap::get();
         auto& c     = S->o->caps;
         int   kind  = int(op.arg(0)) % 3;
-        int   pos   = int(op.arg(1)) % 6;
+        int   pos   = int(op.arg(1)) % 8;
         bool  small = S->o->name.find(".small.") != std::string::npos;
         int   idx   = 0;
         std::vector<Alloc*> mine;
@@ -320,6 +320,7 @@ namespace hs
                                  pos == 1 ? nodes.back() :
                                  pos == 4 ? nodes[pair] :
                                  pos == 5 ? nodes[pair + 1] :
+                                 pos >= 6 ? nodes[std::size_t(op.arg(2)) % nodes.size()] : // any node
                                             nodes[nodes.size() / 2];
             Alloc*      then   = pos == 4 ? nodes[pair + 1] : pos == 5 ? nodes[pair] : nullptr;
             const char* desc   = pos == 0 ? "lowest address" :
@@ -327,11 +328,18 @@ namespace hs
                                  pos == 2 ? "most recently freed" :
                                  pos == 4 ? "the neighbour below the most recently freed node" :
                                  pos == 5 ? "the neighbour above the most recently freed node" :
+                                 pos >= 6 ? "a node at a drawn position, other nodes freed around it" :
                                             "middle of the free list";
             std::snprintf(what, sizeof what, "%s: second deallocate_node of a node that is already free (%s)",
                           S->o->name.c_str(), desc);
             Alloc v  = *victim;
             Alloc o1 = *nodes[1], o2 = *nodes[nodes.size() - 2];
+            if (pos >= 6)
+            {
+                // (two other nodes at drawn positions are freed between the two frees of the victim)
+                o1 = *nodes[std::size_t(op.arg(2) / 7) % nodes.size()];
+                o2 = *nodes[std::size_t(op.arg(2) / 53) % nodes.size()];
+            }
             Alloc th = then ? *then : v;
             auto  o  = in_child(
                 [&]
@@ -547,6 +555,24 @@ namespace hs
                                                 va.allocate_node(size, 8);
                     std::memset(p, 0x77, size);
                     live.push_back({w, p, size});
+                }
+                else if (o.kind == "xx")
+                {
+                    // a request the upstream refuses (far above what it hands out at once): it fails, and a failed
+                    // request must not stay in the books
+                    int         w    = int(o.arg(0)) % 4;
+                    std::size_t size = (std::size_t(300) << 10) + std::size_t(o.arg(1)) % 5000;
+                    try
+                    {
+                        void* p = w == 0 ? ha.allocate_node(size, 8) :
+                                  w == 1 ? ma.allocate_node(size, 8) :
+                                  w == 2 ? na.allocate_node(size, 8) :
+                                           va.allocate_node(size, 8);
+                        live.push_back({w, p, size}); // (served after all: then it counts like any other)
+                    }
+                    catch (const std::bad_alloc&)
+                    {
+                    }
                 }
                 else if (o.kind == "xf" && !live.empty())
                 {
